@@ -298,13 +298,22 @@ pub fn build(m: &Membership) -> JoinWorld {
     let mut cs = ChangeSet::new();
     let mut changes = BTreeMap::new();
     let alive_vec: Vec<u32> = alive.iter().cloned().collect();
+    // the set is filled one by one or (odd churn) in one batch, which may name an entity several times
+    let mut batch: Vec<(Entity, i64)> = vec![];
     for (x, amt) in &m.changes {
         if alive_vec.is_empty() {
             break;
         }
         let i = alive_vec[((*x as u64 * alive_vec.len() as u64) >> 32) as usize];
-        cs.add(handles[&i], *amt as i64);
+        if m.churn % 2 == 1 {
+            batch.push((handles[&i], *amt as i64));
+        } else {
+            cs.add(handles[&i], *amt as i64);
+        }
         *changes.entry(i).or_insert(0i64) += *amt as i64;
+    }
+    if !batch.is_empty() {
+        cs.extend(batch);
     }
     JoinWorld {
         world,
